@@ -998,7 +998,10 @@ Qed.
 (* every parameter of the query is sent as it is, whatever its neighbours are; only an empty object becomes the empty string *)
 Theorem requests_params_lookup q k :
   d_get k (requests_params q) = omap (fun v => if is_empty_obj v then sval [] else v) (d_get k q).
-Proof. rewrite requests_params_pointwise. unfold blank_empty_obj. apply d_get_map_snd. Qed.
+Proof.
+  rewrite requests_params_pointwise. unfold blank_empty_obj.
+  exact (d_get_map_snd (fun v => if is_empty_obj v then sval [] else v) k q).
+Qed.
 
 Example requests_params_nonvacuous :
   requests_params [([111], VObj []); ([112], VPrim (PInt 0)); ([98], VPrim (PBool false)); ([105], VArr []); ([115], VPrim (PStr []))]
@@ -1011,14 +1014,56 @@ Proof. reflexivity. Qed.
 Lemma always_safe_lt b : always_safe b = true -> b < 128.
 Proof. intros H. apply always_safe_props in H. lia. Qed.
 
+Lemma safe_flat_utf8 s : (forall c, In c s -> always_safe c = true) -> flat_map utf8_cp s = s.
+Proof.
+  induction s as [|c s IH]; intros H; [reflexivity|]. cbn [flat_map].
+  rewrite IH by (intros x Hx; apply H; right; exact Hx).
+  unfold utf8_cp. assert (c < 128) by (apply always_safe_lt, H; left; reflexivity).
+  replace (c <? 128) with true by lia. reflexivity.
+Qed.
+
 Lemma safe_utf8 s : forallb always_safe s = true -> utf8_encode s = Some s.
 Proof.
   intros H. unfold utf8_encode. rewrite forallb_forall in H.
   assert (E : forallb is_scalar s = true).
   { apply forallb_forall. intros c Hc. apply H in Hc. apply always_safe_lt in Hc. unfold is_scalar, is_surrogate. lia. }
-  rewrite E. f_equal. induction s as [|c s IH]; [reflexivity|]. cbn [flat_map].
-  rewrite IH by (intros x Hx; apply H; right; exact Hx; fail).
-  - unfold utf8_cp. assert (c < 128) by (apply always_safe_lt, H; left; reflexivity).
-    replace (c <? 128) with true by lia. reflexivity.
-  - apply forallb_forall. intros x Hx. apply E'. 
+  rewrite E, safe_flat_utf8 by exact H. reflexivity.
 Qed.
+
+Lemma safe_quote_plus s : forallb always_safe s = true -> quote_plus s = Some s.
+Proof.
+  intros H. unfold quote_plus, quote_with. rewrite safe_utf8 by exact H. cbn [omap]. f_equal.
+  rewrite forallb_forall in H. induction s as [|c s IH]; [reflexivity|].
+  cbn [flat_map]. unfold quote_byte at 1. rewrite (H c) by (left; reflexivity). cbn [orb app sp_to_plus map].
+  pose proof (always_safe_props c (H c (or_introl eq_refl))) as P.
+  replace (c =? 32) with false by lia. f_equal. apply IH. intros x Hx. apply H. right. exact Hx.
+Qed.
+
+Lemma stable_quote_value s : quote_stable s = true -> quote_value s = Some s.
+Proof.
+  unfold quote_stable, quote_value. rewrite !andb_true_iff, !negb_true_iff. intros [[H1 H2] H3].
+  rewrite H2, H3. apply safe_quote_plus. exact H1.
+Qed.
+
+(* a value made of unreserved characters is carried unchanged by every coverage case ... *)
+Theorem coverage_stable name s n :
+  quote_stable s = true -> template_nth [] n [(name, sval s)] = Some [(name, sval s)].
+Proof.
+  intros H. induction n as [|n IH]; cbn [template_nth]; unfold template_step, serialize3, ser3;
+    cbn [flat_map composed fold_right obind quote_all sval];
+    rewrite (stable_quote_value s H); cbn [obind omap map fst snd stringify_v js_str sval]; [reflexivity | exact IH].
+Qed.
+
+(* ... any other value is quoted once more by each case: the second case built from a template does not carry it *)
+Lemma coverage_requote_refuted :
+  exists name s out1 out2 q2,
+    template_nth [] 0 [(name, sval s)] = Some out1 /\ obind (d_get name out1) as_str = quote_value s
+    /\ template_nth [] 1 [(name, sval s)] = Some out2 /\ d_get name out2 = Some (sval q2)
+    /\ pct_decode_form q2 <> Some s /\ pct_decode q2 <> Some s.
+Proof.
+  exists [105;100], [97;32;98], [([105;100], sval [97;43;98])], [([105;100], sval [97;37;50;66;98])], [97;37;50;66;98].
+  repeat split; try (vm_compute; reflexivity); vm_compute; discriminate.
+Qed.
+
+Example coverage_stable_nonvacuous : quote_stable [97; 46; 98; 45; 49; 126] = true.
+Proof. reflexivity. Qed.
